@@ -170,7 +170,7 @@ def replay_text(caps, hist, what):
     return "\n".join(lines) + "\n"
 
 
-def explore_config(chk, caps, nw, depth, with_rselect=True, with_select2=True, max_states=None):
+def explore_config(chk, caps, nw, depth, with_rselect=True, with_select2=True, max_states=None, stop_at=None):
     label = "caps=%s workers=%d" % (list(caps), nw)
     init = Model(caps, nw)
     depth_map = {}
@@ -217,7 +217,7 @@ def explore_config(chk, caps, nw, depth, with_rselect=True, with_select2=True, m
         return trs
 
     r = bfs_histories(chk, init, acts, _skip_none(rl), jdg, depth, label=label, max_states=max_states,
-                      on_violation=on_violation)
+                      on_violation=on_violation, stop_at=stop_at)
     chk.add(states=r["states"], transitions=r["transitions"], evaluations=r["transitions"])
     chk.part(label, states=r["states"], transitions=r["transitions"], depth_completed=r["depth_completed"],
              depth_target=depth)
@@ -280,13 +280,14 @@ def main():
         ring_len = 16
     only = chk.args.only
     completed = []
-    for caps, nw, depth in configs:
+    for i, (caps, nw, depth) in enumerate(configs):
         if only and only != "bfs":
             break
         if chk.out_of_time(0.85):
             chk.cap("config caps=%s workers=%d depth=%d not started (time budget)" % (list(caps), nw, depth))
             continue
-        r = explore_config(chk, caps, nw, depth)
+        slice_end = chk.elapsed() + (chk.budget * 0.85 - chk.elapsed()) / (len(configs) - i)
+        r = explore_config(chk, caps, nw, depth, stop_at=slice_end)
         completed.append("caps=%s/w=%d:depth %d" % (list(caps), nw, r["depth_completed"]))
         if chk.cov["samples"] == [] or len(chk.cov["samples"]) < 3:
             chk.sample({"config": "caps=%s workers=%d" % (list(caps), nw),
